@@ -462,6 +462,18 @@ def r7_owner(ctx: Ctx, fq: str, require: int = 2) -> list[Ob]:
     ld = LocalDefs(f.node)
     out: list[Ob] = []
 
+    def canon(name: str) -> str:
+        """follow plain aliases  rg2 = other  to the root name"""
+        seen = set()
+        while name in ld.defs and name not in seen:
+            seen.add(name)
+            ds = ld.defs[name]
+            if len(ds) == 1 and isinstance(ds[0], ast.Name):
+                name = ds[0].id
+            else:
+                break
+        return name
+
     def owners(e: ast.AST, depth: int = 0) -> set[str] | None:
         """graph objects (names) whose node collections *e* is drawn from"""
         if depth > 8:
@@ -495,9 +507,9 @@ def r7_owner(ctx: Ctx, fq: str, require: int = 2) -> list[Ob]:
             return None
         if isinstance(e, ast.Attribute) and isinstance(e.value, ast.Name):
             # X.partition_nodes / X.region_nodes / X.nodes ...
-            return {e.value.id}
+            return {canon(e.value.id)}
         if isinstance(e, ast.Call) and isinstance(e.func, ast.Attribute) and isinstance(e.func.value, ast.Name) and e.func.attr in GRAPH_QUERIES | {"topological_ordering"}:
-            return {e.func.value.id}
+            return {canon(e.func.value.id)}
         if isinstance(e, ast.Call) and isinstance(e.func, ast.Name) and e.func.id in ("enumerate",) and e.args:
             return owners(e.args[0], depth + 1)
         return None
@@ -505,7 +517,7 @@ def r7_owner(ctx: Ctx, fq: str, require: int = 2) -> list[Ob]:
     n_sites = 0
     for n in ast.walk(f.node):
         if isinstance(n, ast.Call) and isinstance(n.func, ast.Attribute) and n.func.attr in GRAPH_QUERIES and isinstance(n.func.value, ast.Name) and len(n.args) == 1:
-            recv = n.func.value.id
+            recv = canon(n.func.value.id)
             o = owners(n.args[0])
             inst = f"{recv}.{n.func.attr}({unparse(n.args[0])})"
             l = f"{f.module.relpath}:{n.lineno}"
